@@ -7,7 +7,7 @@
    the calls issued inside one phase of trigger_jobs.  They are modelled as duplicate-free lists
    (zadd / zdiscard / filter) and every comparison with the implementation sorts them. *)
 From Sup Require Export Base.
-From Sup Require Import GenEnums.
+From Sup Require Import GenEnums GenNode.
 
 (* RunningFailureStrategies *)
 Inductive rfstrat := RfContinue | RfRestartProcess | RfStopApplication | RfRestartApplication | RfShutdown | RfRestart.
@@ -377,12 +377,21 @@ Definition ispec_violations (cs : list icase) : list nat := find_idx icase_spec_
 (* ====================================================================== *)
 Inductive wstate := WDistribution | WOperation | WConciliation.
 
-(* FiniteStateMachine.next() in a working state, with `lostp` = (invalidate_failed returned lost processes):
-   does the evaluation call failure_handler.add_default_job for them ?
-   _MasterSlaveState.next -> _master_next only on the Master; DistributionState and OperationState call
-   _WorkingState._master_next; ConciliationState._master_next does NOT. *)
-Definition loss_handled (st : wstate) (master lostp : bool) : bool :=
-  master && lostp && match st with WConciliation => false | _ => true end.
+(* the role of the local instance when an instance is lost:
+   RMaster          : it is the Master (the lost instance is another one);
+   RSlave           : it is not, and the Master survives;
+   RNextMaster      : it is not, the LOST instance is the Master, and the local instance is elected next *)
+Inductive role := RMaster | RSlave | RNextMaster.
+
+(* Does the local instance call failure_handler.add_default_job for the processes lost with the instance
+   (`lostp` = invalidate_failed returned lost processes) -- at the evaluation that acknowledges the loss or at any
+   later one (the driver evaluates the FSM until the local instance has been a Master in OPERATION for a while) ?
+   _MasterSlaveState.next -> _master_next only on the Master; DistributionState, OperationState and
+   ConciliationState all call _WorkingState._master_next. When the Master itself is lost, _check_consistence
+   returns ELECTION before _master_next/_common_next, lost_processes dies with the state instance, and neither
+   ElectionState nor the next working state of the new Master looks at them. *)
+Definition loss_handled (st : wstate) (r : role) (lostp : bool) : bool :=
+  match r with RMaster => lostp | RSlave | RNextMaster => false end.
 
 (* FiniteStateMachine.on_process_state_event : add_default_job + trigger_jobs on a process crash *)
 Definition crash_handled (s : rfstrat) (master crashed forced : bool) : bool :=
@@ -393,32 +402,63 @@ Definition crash_handled (s : rfstrat) (master crashed forced : bool) : bool :=
 Definition crash_ending (s : rfstrat) (master crashed : bool) : Z :=
   if master && crashed then match s with RfRestart => 1 | RfShutdown => 2 | _ => 0 end else 0.
 
-Definition wcase := (wstate * bool * bool * bool)%type.               (* state, master, lostp, observed *)
-Definition ccase := (rfstrat * bool * bool * bool * (bool * Z))%type. (* strategy, master, crashed, forced, observed *)
-
-Definition wcase_mismatch (x : wcase) : bool :=
-  match x with (st, m, l, o) => negb (Bool.eqb (loss_handled st m l) o) end.
-Definition ccase_mismatch (x : ccase) : bool :=
-  match x with (s, m, cr, f, (o1, o2)) =>
-    negb (Bool.eqb (crash_handled s m cr f) o1 && Z.eqb (crash_ending s m cr) o2) end.
-
-(* Spec (property text): the Master, and only the Master, applies the strategy to every lost process *)
-Definition wcase_spec_violation (x : wcase) : bool :=
-  match x with (st, m, l, o) => negb (Bool.eqb o (m && l)) end.
-(* the class of candidate finding F8: the Master is in CONCILIATION *)
-Definition in_f8_class (x : wcase) : bool :=
-  match x with (WConciliation, true, true, _) => true | _ => false end.
-Definition wcase_spec_violation_outside_f8 (x : wcase) : bool := negb (in_f8_class x) && wcase_spec_violation x.
-Definition wcase_spec_violation_f8 (x : wcase) : bool := in_f8_class x && wcase_spec_violation x.
-(* crash: application-level strategies by the Master only, never on a forced state; SHUTDOWN / RESTART likewise *)
-Definition ccase_spec_violation (x : ccase) : bool :=
-  match x with (s, m, cr, f, (o1, o2)) =>
-    negb (Bool.eqb o1 (m && cr && negb f && (rf_eqb s RfStopApplication || rf_eqb s RfRestartApplication))
-          && Z.eqb o2 (if m && cr then (if rf_eqb s RfRestart then 1 else if rf_eqb s RfShutdown then 2 else 0) else 0))
+(* on_restart / on_shutdown on the Master: set_state(RESTARTING / SHUTTING_DOWN), which FiniteStateMachine.set_state
+   refuses when the reflected transition table has no such edge from the current state.
+   `from_election` : the Master is in ELECTION (true) or in OPERATION (false) when the crash is reported. *)
+Definition fsm_allows (from to : Z) : bool :=
+  match find (fun row => Z.eqb (fst row) from) gen_fsm_transitions with
+  | Some row => zmem to (snd row)
+  | None => false
   end.
 
+Definition crash_ending_entered (s : rfstrat) (master crashed from_election : bool) : bool :=
+  let from := if from_election then gen_SupvisorsStates_ELECTION else gen_SupvisorsStates_OPERATION in
+  match crash_ending s master crashed with
+  | 1 => fsm_allows from gen_SupvisorsStates_RESTARTING
+  | 2 => fsm_allows from gen_SupvisorsStates_SHUTTING_DOWN
+  | _ => false
+  end.
+
+Definition wcase := (wstate * role * bool * bool)%type.     (* state, role, lostp, observed *)
+(* strategy, master, crashed, forced, from_election, observed (handled, ending requested, ending entered) *)
+Definition ccase := (rfstrat * bool * bool * bool * bool * (bool * Z * bool))%type.
+
+Definition wcase_mismatch (x : wcase) : bool :=
+  match x with (st, r, l, o) => negb (Bool.eqb (loss_handled st r l) o) end.
+Definition ccase_mismatch (x : ccase) : bool :=
+  match x with (s, m, cr, f, el, (o1, o2, o3)) =>
+    negb (Bool.eqb (crash_handled s m cr f) o1 && Z.eqb (crash_ending s m cr) o2
+          && Bool.eqb (crash_ending_entered s m cr el) o3) end.
+
+(* Spec (property text): the Master -- the next one when the Master itself is lost -- and only the Master applies
+   the strategy to every lost process *)
+Definition loss_expected (r : role) (lostp : bool) : bool :=
+  match r with RMaster | RNextMaster => lostp | RSlave => false end.
+Definition wcase_spec_violation (x : wcase) : bool :=
+  match x with (st, r, l, o) => negb (Bool.eqb o (loss_expected r l)) end.
+(* the class of known finding F9: the processes are lost together with the Master *)
+Definition in_f9_class (x : wcase) : bool :=
+  match x with (_, RNextMaster, true, _) => true | _ => false end.
+Definition wcase_spec_violation_outside_f9 (x : wcase) : bool := negb (in_f9_class x) && wcase_spec_violation x.
+Definition wcase_spec_violation_f9 (x : wcase) : bool := in_f9_class x && wcase_spec_violation x.
+
+(* crash: application-level strategies by the Master only, never on a forced state; SHUTDOWN / RESTART are requested
+   by the Master only and the FSM then enters RESTARTING / SHUTTING_DOWN *)
+Definition ccase_spec_violation (x : ccase) : bool :=
+  match x with (s, m, cr, f, el, (o1, o2, o3)) =>
+    let want := if m && cr then (if rf_eqb s RfRestart then 1 else if rf_eqb s RfShutdown then 2 else 0) else 0 in
+    negb (Bool.eqb o1 (m && cr && negb f && (rf_eqb s RfStopApplication || rf_eqb s RfRestartApplication))
+          && Z.eqb o2 want && Bool.eqb o3 (negb (Z.eqb want 0)))
+  end.
+(* the class of known finding F10: the Master is in ELECTION when the crash is reported *)
+Definition in_f10_class (x : ccase) : bool :=
+  match x with (_, _, _, _, el, _) => el end.
+Definition ccase_spec_violation_outside_f10 (x : ccase) : bool := negb (in_f10_class x) && ccase_spec_violation x.
+Definition ccase_spec_violation_f10 (x : ccase) : bool := in_f10_class x && ccase_spec_violation x.
+
 Definition wmismatches (cs : list wcase) : list nat := find_idx wcase_mismatch cs.
-Definition wspec_violations (cs : list wcase) : list nat := find_idx wcase_spec_violation_outside_f8 cs.
-Definition wknown_f8 (cs : list wcase) : list nat := find_idx wcase_spec_violation_f8 cs.
+Definition wspec_violations (cs : list wcase) : list nat := find_idx wcase_spec_violation_outside_f9 cs.
+Definition wknown_f9 (cs : list wcase) : list nat := find_idx wcase_spec_violation_f9 cs.
 Definition cmismatches (cs : list ccase) : list nat := find_idx ccase_mismatch cs.
-Definition cspec_violations (cs : list ccase) : list nat := find_idx ccase_spec_violation cs.
+Definition cspec_violations (cs : list ccase) : list nat := find_idx ccase_spec_violation_outside_f10 cs.
+Definition cknown_f10 (cs : list ccase) : list nat := find_idx ccase_spec_violation_f10 cs.
